@@ -207,8 +207,10 @@ fn gen_line_program(r: &mut Rng, enc: Enc, dw: &mut write::Dwarf, files_out: &mu
         line_base,
         line_range,
     };
-    let ls = |r: &mut Rng, dw: &mut write::Dwarf, b: Vec<u8>| -> LineString {
-        if enc.version >= 5 && r.bool() {
+    // one string form per program (the writer rejects mixed forms: LineStringFormMismatch)
+    let use_ref = enc.version >= 5 && r.bool();
+    let ls = |_r: &mut Rng, dw: &mut write::Dwarf, b: Vec<u8>| -> LineString {
+        if use_ref {
             LineString::LineStringRef(dw.line_strings.add(b))
         } else {
             LineString::String(b)
